@@ -141,3 +141,11 @@ Definition normpath_str (s : list N) : list N :=
                  end
   | _ => s
   end.
+
+(* ---- the path under which a declaration is collected (collect.pytask_collect_node): a
+   relative declaration is joined onto the directory of the task module; the result - and an
+   absolute declaration as well - is normalised lexically.  Strings are POSIX paths. *)
+Definition is_abs (s : list N) : bool := match s with 47%N :: _ => true | _ => false end.
+
+Definition collected_path (task_dir decl : list N) : list N :=
+  if is_abs decl then normpath_str decl else normpath_str (task_dir ++ [47%N] ++ decl).
